@@ -49,6 +49,18 @@ class C16Lowerer(Lowerer):
         self.need_payload.add(t)
         return 'XML_' + t
 
+    # QT_USE_QSTRINGBUILDER: every QStringBuilder<A, B> (any nesting) is the concatenated string
+    def ctype(self, t, node=None):
+        if t is not None and strip_type(t).startswith('QStringBuilder<'):
+            return 'qstr'
+        return super().ctype(t, node)
+
+    def tkey(self, n):
+        for cand in (qt(n), dqt(n)):
+            if strip_type(cand).startswith('QStringBuilder<'):
+                return 'qstr'
+        return super().tkey(n)
+
     def declref(self, n):
         rd = n['referencedDecl']
         if rd.get('kind') == 'EnumConstantDecl' and re.search(r'\((unnamed|anonymous)', rd.get('type', {}).get('qualType', '')):
@@ -172,7 +184,7 @@ def profile(saslver_type_keys=()):
         'QXmppIncomingClient': 'QXmppIncomingClient', 'QXmppIncomingClientPrivate': 'QXmppIncomingClientPrivate',
         'std::unique_ptr<QXmppIncomingClientPrivate>': 'QXmppIncomingClientPrivate*',
         'std::unique_ptr<QXmppSaslServer>': 'QXmppSaslServer*', 'QXmppSaslServer': 'QXmppSaslServer',
-        'QXmppSaslServer::Response': 'int', 'QXmppPasswordReply::Error': 'int', 'QXmppIq::Type': 'int',
+        'QXmppSaslServer::Response': 'int', 'QCryptographicHash::Algorithm': 'int', 'QXmppPasswordReply::Error': 'int', 'QXmppIq::Type': 'int',
         'QXmppSaslServerPlain': 'QXmppSaslServer', 'QXmppSaslServerAnonymous': 'QXmppSaslServer', 'QList<QByteArray>': 'QBytesList',
         'QTimer': 'QTimer', 'QSslSocket': 'QSslSocket', 'XmppSocket': 'XmppSocket', PRIV + 'XmppSocket': 'XmppSocket',
         'QXmppPasswordChecker': 'QXmppPasswordChecker', 'QXmppPasswordRequest': 'QXmppPasswordRequest', 'QXmppPasswordReply': 'QXmppPasswordReply',
@@ -205,6 +217,8 @@ def profile(saslver_type_keys=()):
         'QSslSocket::flush/0': ('fn', 'QSslSocket_flush'),
         'QSslSocket::startServerEncryption/0': ('fn', 'QSslSocket_startServerEncryption'),
         'qstr::operator QString/0': ('arg', 0),
+        'qstr::toUtf8/0': ('fn', 'qstr_toUtf8'),
+        'fn:hash/2': ('fn', 'qbytes_hash'),
         'qstr::arg/1': str_arg, 'qstr::arg/2': str_arg,
         'op+:qstr:quint16': ('fn', 'qstr_append_char'), 'op+:qstr:qstr': ('fn', 'qstr_concat'),
         'qdom::setAttribute/2': ('fn', 'mdom_setAttribute'),
@@ -250,6 +264,7 @@ def profile(saslver_type_keys=()):
         'QXmppPasswordRequest::domain/0': ('callee', 'QXmppPasswordRequest_domain'),
         'QXmppPasswordRequest::username/0': ('callee', 'QXmppPasswordRequest_username'),
         'QXmppPasswordRequest::password/0': ('callee', 'QXmppPasswordRequest_password'),
+        'QXmppPasswordReply::setDigest/1': ('callee', 'QXmppPasswordReply_setDigest'),
         'QXmppPasswordReply::setError/1': ('callee', 'QXmppPasswordReply_setError'),
         'QXmppPasswordReply::finishLater/0': ('callee', 'QXmppPasswordReply_finishLater'),
         'QXmppPasswordChecker::getPassword/2': get_password,
